@@ -206,6 +206,36 @@ pub fn encode_wellformed(region: u32, entries: &[(u32, u32, Value)]) -> Vec<u8> 
     out
 }
 
+/// Encode a header whose region covers the (sorted) `region_entries` only; `dribbles` are appended after it
+/// in the given order - index entries after the region's, data behind the region trailer.
+pub fn encode_dribble(region: u32, region_entries: &[(u32, u32, Value)], dribbles: &[(u32, u32, Value)]) -> Vec<u8> {
+    let mut sorted: Vec<&(u32, u32, Value)> = region_entries.iter().collect();
+    sorted.sort_by_key(|e| e.0);
+    let mut store = vec![];
+    let mut idx = vec![];
+    for (tag, typ, v) in sorted {
+        let (off, cnt) = encode_value(*typ, v, &mut store);
+        idx.push(entry_bytes(*tag, *typ, off, cnt));
+    }
+    let ril = idx.len() + 1;
+    let trailer_off = store.len() as i32;
+    store.extend_from_slice(&entry_bytes(region, T_BIN, -(16 * ril as i32), 16));
+    for (tag, typ, v) in dribbles {
+        let (off, cnt) = encode_value(*typ, v, &mut store);
+        idx.push(entry_bytes(*tag, *typ, off, cnt));
+    }
+    let n = idx.len() + 1;
+    let mut out = vec![0x8e, 0xad, 0xe8, 0x01, 0, 0, 0, 0];
+    out.extend_from_slice(&(n as u32).to_be_bytes());
+    out.extend_from_slice(&(store.len() as u32).to_be_bytes());
+    out.extend_from_slice(&entry_bytes(region, T_BIN, trailer_off, 16));
+    for e in idx {
+        out.extend_from_slice(&e);
+    }
+    out.extend_from_slice(&store);
+    out
+}
+
 /// Encode a raw header exactly as described: intro bytes, raw index entries, raw store.
 pub fn encode_raw(magic: [u8; 4], reserved: [u8; 4], nindex: u32, dsize: u32, entries: &[[i64; 4]], store: &[u8]) -> Vec<u8> {
     let mut out = magic.to_vec();
